@@ -298,9 +298,18 @@ func negotiateSession(ctx context.Context, location, origin jid.JID, rw io.ReadW
 				From: s.out.Info.From,
 			}
 		}
+		// Transports without deadlines are not interrupted by the context: look at
+		// it between the steps at least.
+		if ctxErr := ctx.Err(); ctxErr != nil {
+			return s, ctxErr
+		}
 		mask, rw, data, err = negotiate(ctx, &s.in.Info, &s.out.Info, s, data)
 		if err != nil {
 			return s, err
+		}
+		// The step may have finished although the context ended meanwhile.
+		if ctxErr := ctx.Err(); ctxErr != nil {
+			return s, ctxErr
 		}
 		if rw != nil {
 			for k := range s.features {
